@@ -98,6 +98,11 @@ SELECTED += [
     ("Tag.__str__", "packaging.tags", "Tag.__str__"),
     ("Tag.__eq__", "packaging.tags", "Tag.__eq__"),
     ("Tag.__hash__", "packaging.tags", "Tag.__hash__"),
+    ("canonicalize_name", "packaging.utils", "canonicalize_name"),
+    ("is_normalized_name", "packaging.utils", "is_normalized_name"),
+    ("parse_tag", "packaging.tags", "parse_tag"),
+    ("parse_sdist_filename", "packaging.utils", "parse_sdist_filename"),
+    ("parse_wheel_filename", "packaging.utils", "parse_wheel_filename"),
 ]
 
 # classes whose instances the translated code handles as records `PyVal.obj <class name> <fields>`; attribute access on
@@ -208,6 +213,29 @@ ITERTOOLS_FN = {"takewhile": "PyRt.takewhile", "dropwhile": "PyRt.dropwhile"}
 # contexts in which a mutated (owned) list may be read without creating an alias: builtin consumers
 CONSUMERS = {"len", "list", "tuple", "sorted", "any", "all", "max", "min", "enumerate", "reversed", "bool", "str"}
 FRESH_CALLS = {"list", "sorted"}
+
+# --- x2: tables of the second round -----------------------------------------------------------------------------------
+METHODS.update({"count": ("PyRx.str_count", 1)})
+# `s.add(x)` on an owned set local: the run-time function also takes the equality function of the member class
+OTHER_MUTATORS.discard("add")
+MUTATORS.update({"add": ("PyRx.set_add", 1)})
+FRESH_CALLS |= {"set"}
+CONSUMERS |= {"frozenset", "set"}
+# modules whose strings are arbitrary text: `.lower()` is the full per-code-point table there (PyRx.str_lower_full),
+# elsewhere the ASCII run-time function
+FULL_LOWER_MODULES = {"packaging.utils"}
+# compiled patterns whose *structure* harness/translators/names.py measures into Gen.NameTables:
+# (module, global name) -> (kind, structure flag, Lean arguments)
+MEASURED_PATTERNS = {
+    ("packaging.utils", "_canonicalize_regex"): ("class_plus", "Gen.NameTables.canonStructureOk", "Gen.NameTables.separators"),
+    ("packaging.utils", "_build_tag_regex"): ("two_runs", "Gen.NameTables.buildStructureOk",
+                                               "Gen.NameTables.digitTable Gen.NameTables.notDot"),
+}
+# the one inline `re.match(<literal>, x, <flags>)` of this function is measured by names.py as `^<atom>*$`
+MEASURED_INLINE = {
+    ("packaging.utils", "parse_wheel_filename"): ("Gen.NameTables.wheelNameStructureOk",
+                                                  "Gen.NameTables.wheelNameRanges Gen.NameTables.wheelNameDollar"),
+}
 
 
 # ---------------------------------------------------------------------------------------------- one function
@@ -749,7 +777,9 @@ class Fn:
             self.emit(ind, f"catch {e} =>")
             first = True
             for h in st.handlers:
-                if h.name is not None and any(isinstance(n, ast.Name) and n.id == h.name for s in h.body for n in ast.walk(s)):
+                causes = {id(r.cause) for s in h.body for r in ast.walk(s) if isinstance(r, ast.Raise) and r.cause is not None}
+                if h.name is not None and any(isinstance(n, ast.Name) and n.id == h.name and id(n) not in causes   # x2: `raise C from e`
+                                              for s in h.body for n in ast.walk(s)):
                     raise Unsupported("the caught exception object is used")
                 classes = self.handler_classes(h.type)
                 test = " || ".join(f'PyRt.catches "{c}" {e}' for c in classes)
@@ -909,6 +939,10 @@ class Fn:
             if len(e.args) != ar or e.keywords:
                 raise Unsupported(f"arguments of {e.func.attr}")
             n = lname(e.func.value.id)
+            if e.func.attr == "add":                  # --- x2: sets
+                self.ctx.imports.add("PkgModel.PyRx")
+                self.emit(ind, f"{n} ← {fn} {self.eqf_of(e.args[0])} {n} {self.val(e.args[0])}")
+                return
             self.emit(ind, f"{n} ← {fn} {n} " + " ".join(self.val(a) for a in e.args))
             return
         raise Unsupported("expression statement " + ast.dump(e)[:60])
@@ -967,10 +1001,10 @@ class Fn:
     def is_pure(self, e) -> bool:
         saved_tmp, saved_lines = self.tmp, list(self.lines)
         try:
-            p, _ = self.expr(e)
+            p, c = self.expr(e)
         finally:
             self.tmp, self.lines = saved_tmp, saved_lines
-        return p
+        return p and "←" not in c       # x2: a term with a lifted action is not pure (it would lose the short circuit)
 
     def expr(self, e):
         """-> (pure?, term): a PyVal term if pure, else an `M PyVal` term.  Monadic sub-terms are lifted with
@@ -1418,6 +1452,10 @@ class Fn:
             return False, f"{name} {r} {o} {self.val(e.args[0])} {self.val(e.args[1])}"
         if any(isinstance(a, ast.Starred) for a in e.args):
             raise Unsupported("*args in a call")
+        # ---- x2: compiled patterns resolved to regenerated data, `cast`
+        r = self.x2_call(e, f, kws)
+        if r is not None:
+            return r
         # ---- plain names: builtins, selected functions, classes
         if isinstance(f, ast.Name) and f.id not in self.locals:
             g = self.resolve_global(f.id)
@@ -1499,6 +1537,11 @@ class Fn:
                         raise Unsupported(f"regular expression {pat!r} has no matcher in the run-time")
                     lit = pat.replace("\\", "\\\\").replace('"', '\\"')
                     return False, f'PyRt.re_match "{lit}" {self.val(e.args[1])}'
+                if modname == "re" and path == "match" and len(e.args) in (2, 3) and isinstance(e.args[0], ast.Constant) \
+                        and (self.pyfunc.__module__, self.pyfunc.__qualname__) in MEASURED_INLINE:          # --- x2
+                    flag, targs = MEASURED_INLINE[(self.pyfunc.__module__, self.pyfunc.__qualname__)]
+                    self.ctx.imports.add("PkgModel.PyRx")
+                    return False, f"PyRx.match_class_star {flag} {targs} {self.val(e.args[1])}"
                 full = ".".join(dotted)
                 if full in EXTERNAL_CALLS and not kws:
                     args = ", ".join(self.val(a) for a in e.args)
@@ -1519,14 +1562,98 @@ class Fn:
             if f.attr == "split" and len(e.args) == 2 and not kws:
                 recv = self.val(f.value)
                 return False, f"PyRt.str_split_max {recv} {self.val(e.args[0])} {self.val(e.args[1])}"
+            if f.attr == "lower" and not e.args and not kws and self.pyfunc.__module__ in FULL_LOWER_MODULES:   # --- x2
+                self.ctx.imports.add("PkgModel.PyRx")
+                return False, "PyRx.str_lower_full " + self.val(f.value)
             if f.attr in METHODS:
                 fn, ar = METHODS[f.attr]
+                if fn.startswith("PyRx."):
+                    self.ctx.imports.add("PkgModel.PyRx")
                 if kws or len(e.args) != ar:
                     raise Unsupported(f"arguments of method {f.attr}")
                 recv = self.val(f.value)
                 return False, fn + " " + recv + "".join(" " + self.val(a) for a in e.args)
             raise Unsupported(f"method {f.attr}")
         raise Unsupported("call of a computed function")
+
+    # ------------------------------------------------------------------ x2: patterns, sets
+    def x2_call(self, e, f, kws):
+        """calls resolved at translation time to regenerated data: `<compiled pattern global>.match/.search/.sub(...)`,
+        `typing.cast(T, v)`; None when `e` is not one of these"""
+        if isinstance(f, ast.Name) and f.id == "cast" and f.id not in self.locals and len(e.args) == 2 and not kws:
+            import typing
+            if self.globals.get("cast") is typing.cast:
+                return self.expr(e.args[1])                      # the type argument has no run-time effect
+        if not (isinstance(f, ast.Attribute) and isinstance(f.value, ast.Name) and f.value.id not in self.locals
+                and type(self.globals.get(f.value.id)).__name__ == "Pattern" and not kws):
+            return None
+        pat = self.globals[f.value.id]
+        key = (self.pyfunc.__module__, f.value.id)
+        import re as _re
+        if f.attr in ("match", "search") and len(e.args) == 1:
+            name = _registered_regex(pat)
+            if name is not None and not (pat.flags & _re.MULTILINE):
+                self.ctx.imports.add("PkgModel.PyRx")
+                self.ctx.imports.add(f"PkgModel.Generated.{name}")
+                return False, f"PyRx.rx_test Gen.{name}.supported Gen.{name}.ranges Gen.{name}.rx {self.val(e.args[0])}"
+            if key in MEASURED_PATTERNS and MEASURED_PATTERNS[key][0] == "two_runs" and f.attr == "match":
+                _, flag, targs = MEASURED_PATTERNS[key]
+                self.ctx.imports.add("PkgModel.PyRx")
+                return False, f"PyRx.match_two_runs {flag} {targs} {self.val(e.args[0])}"
+        if f.attr == "sub" and len(e.args) == 2 and key in MEASURED_PATTERNS and MEASURED_PATTERNS[key][0] == "class_plus":
+            _, flag, targs = MEASURED_PATTERNS[key]
+            self.ctx.imports.add("PkgModel.PyRx")
+            return False, f"PyRx.sub_class_plus {flag} {targs} {self.val(e.args[0])} {self.val(e.args[1])}"
+        return None
+
+    def eqf_of_class(self, c):
+        """the equality function sets use for members of tracked class c (its translated `__eq__`), as a Lean term"""
+        impl = self.ctx.lookup(c, "__eq__")
+        if not inspect.isfunction(impl):
+            raise Unsupported(f"set of {c.__name__} without a Python-level __eq__")
+        for d in self.ctx.subclasses(c):
+            if self.ctx.lookup(d, "__eq__") is not impl:
+                raise Unsupported("set members whose subclasses override __eq__")
+        if not inspect.isfunction(self.ctx.lookup(c, "__hash__")):
+            raise Unsupported(f"set of {c.__name__} without a Python-level __hash__")
+        fn = self.ctx.require(impl)
+        return f"(fun __a __b => do pure (PyRt.eqResult false (← {self.call_selected(fn, ['__a', '__b'])})))"
+
+    def eqf_of(self, a):
+        """equality function for a set that receives the value of expression `a`"""
+        c = self.static_class(a)
+        if c is not None:
+            return self.eqf_of_class(c)
+        if self.is_simple_value(a):
+            return "PyRx.eq_plain"
+        raise Unsupported("set member of a class that is not known statically")
+
+    def eqf_of_elements(self, it):
+        """equality function for `frozenset(it)` / `set(it)`"""
+        if isinstance(it, ast.Name) and it.id in self.mutated:          # an owned set local: members keep their function
+            adds = [n.value.args[0] for n in _walk_scope(self.node.body)
+                    if isinstance(n, ast.Expr) and isinstance(n.value, ast.Call) and isinstance(n.value.func, ast.Attribute)
+                    and isinstance(n.value.func.value, ast.Name) and n.value.func.value.id == it.id
+                    and n.value.func.attr == "add" and len(n.value.args) == 1]
+            if adds:
+                return self.eqf_of(adds[0])
+        if isinstance(it, ast.Call) and isinstance(it.func, ast.Name) and it.func.id == "map" and len(it.args) == 2 \
+                and isinstance(it.args[0], ast.Name):
+            v = self.globals.get(it.args[0].id)
+            if inspect.isclass(v) and self.ctx.is_tracked(v):
+                return self.eqf_of_class(v)
+        if isinstance(it, (ast.GeneratorExp, ast.ListComp)) and len(it.generators) == 1:
+            c = None
+            self._bound = self._bound + [{t.id for t in ast.walk(it.generators[0].target) if isinstance(t, ast.Name)}]
+            try:
+                c = self.static_class(it.elt)
+            finally:
+                self._bound = self._bound[:-1]
+            if c is not None:
+                return self.eqf_of_class(c)
+        if self.elem_simple(it):
+            return "PyRx.eq_plain"
+        raise Unsupported("set of members whose class is not known statically")
 
     def singledispatch_call(self, name, sd, args, kws):
         """a call of a functools.singledispatch function: dispatch on the run-time class of the first argument over the
@@ -1597,6 +1724,13 @@ class Fn:
             t = self.str_of(args[0])
             if t is not None:
                 return False, t
+        if name in ("set", "frozenset") and not kws and len(args) <= 1:                 # --- x2: sets
+            self.ctx.imports.add("PkgModel.PyRx")
+            if not args:
+                if name == "set":
+                    return False, "PyRx.set_new"
+                raise Unsupported("frozenset() without an argument")
+            return False, f'PyRx.set_of "{name}" {self.eqf_of_elements(args[0])} {self.val(args[0])}'
         if name in BUILTINS:
             fn, ar = BUILTINS[name]
             if kws or len(args) != ar:
@@ -1704,6 +1838,18 @@ class Fn:
 
 
 _CMP = {ast.Lt: "lt", ast.LtE: "le", ast.Gt: "gt", ast.GtE: "ge"}
+
+
+def _registered_regex(pat):
+    """x2: the name under which `translate.regex_source` regenerates this very pattern object (Gen.<name>), else None"""
+    import translate
+    for name, thunk in translate.REGEX_SOURCES.items():
+        try:
+            if thunk()[0] is pat:
+                return name
+        except Exception:
+            continue
+    return None
 _MISSING = object()
 
 
